@@ -157,6 +157,17 @@ MUTATIONS: list[tuple[str, str, str, str, list[str]]] = [
     ("c10-run-first-completed-return", RUN, "    while pending_tasks:\n        done_tasks, pending_tasks = await asyncio.wait(", "    if pending_tasks:\n        done_tasks, pending_tasks = await asyncio.wait(", ["C10"]),
     ("c10-restart-on-base-exception", ACT, "                _logger.exception(\"Actor %s: Raised a BaseException.\", self)\n                raise", "                _logger.exception(\"Actor %s: Raised a BaseException.\", self)\n                n_restarts += 1\n                continue", ["C10"]),
     ("c10-no-delay", ACT, "        if iteration > 0:\n            delay = self.RESTART_DELAY.total_seconds()", "        if iteration > 1:\n            delay = self.RESTART_DELAY.total_seconds()", ["C10"]),
+    # ---- the repairs of rounds 13 / 14, reverted one by one
+    ("c10-revert-wait-collects-all-rounds", SRC + "actor/_background_service.py",
+     "                except BaseException as error:  # pylint: disable=broad-except\n                    exceptions.append(error)\n        if exceptions:",
+     "                except BaseException as error:  # pylint: disable=broad-except\n                    exceptions.append(error)\n            if exceptions:\n                break\n        if exceptions:",
+     ["C10"]),
+    ("c07-revert-results-matched-with-live-dict", SRC + "timeseries/_resampling.py",
+     "                    for i, source in enumerate(sources)", "                    for i, source in enumerate(self._resamplers)", ["C07"]),
+    ("c16-revert-timer-from-message-timestamp", BST,
+     "        stream.data_recv_timer.reset(interval=remaining)", "        stream.data_recv_timer.reset(interval=self._max_data_age)", ["C16"]),
+    ("c20-revert-registry-compares-by-identity", SRC + "_internal/_channels.py",
+     "        if entry.message_type != message_type:", "        if entry.message_type is not message_type:", ["C20"]),
     # ---- C14
     ("c14-pending-not-popped", PD, "self._process_request(req_id, self._pending_requests.pop(req_id))", "self._process_request(req_id, self._pending_requests[req_id])", ["C14"]),
     ("c14-keep-first-pending", PD, "                self._pending_requests[req_id] = request\n", "                self._pending_requests.setdefault(req_id, request)\n", ["C14"]),
